@@ -5,6 +5,7 @@ from analysis.coverage import fields_read
 from analysis.guards import dominating_conditions, conditional_defs, has_cond
 from analysis.facts import strip_generics
 from . import routing as R
+from . import C05 as _C05, C07 as _C07
 
 EXPLANATION = (
     "Decided clauses: (1) routing table T_route(Blocker::new) extracted with the finite-domain path "
@@ -37,6 +38,11 @@ def check(run):
         run.guard("C04.2.precedence", cfg, lambda: rule_precedence(run, F, cfg))
         run.guard("C04.3.badfilter-id", cfg, lambda: rule_badfilter_id(run, F, cfg))
         run.guard("C04.4.badfilter-never-matches", cfg, lambda: rule_never_matches(run, F, cfg))
+        b = run.borrow("C07", why="an $important rule must be found (with the enabled tags) to take precedence")
+        run.guard("C04.via.C07.1.tag-gate", cfg, lambda: _C07.rule_tag_gate(b, F, cfg))
+        b2 = run.borrow("C05", why="fusing rules that differ in a verdict-relevant field makes the verdict depend on "
+                                   "which other rules are present")
+        run.guard("C04.via.C05.1.fusion-key", cfg, lambda: _C05.rule_key(b2, F, cfg))
 
 
 def rule_routing(run, F, cfg):
